@@ -25,6 +25,7 @@ type CaseC04 struct {
 	Prior   ref.Hex `json:"prior"`    // 16 bytes: prior contents of the target buffer (field + canaries)
 	FlipPCR int     `json:"flip_pcr"` // subset of the 6 reserved PCR bits to flip before decoding
 	FlipPTS int     `json:"flip_pts"` // subset of the 7 non-value PTS bits (4 prefix + 3 markers)
+	FlipDTS int     `json:"flip_dts"` // the same for the DTS field of the PES header
 	Raw     ref.Hex `json:"raw"`      // 6 arbitrary bytes for decoder agreement
 }
 
@@ -42,6 +43,7 @@ func genC04(t *rapid.T) CaseC04 {
 	c.Prior = genBytes(t, 16, 16, "prior")
 	c.FlipPCR = rapid.IntRange(0, 63).Draw(t, "flip-pcr")
 	c.FlipPTS = rapid.IntRange(0, 127).Draw(t, "flip-pts")
+	c.FlipDTS = rapid.IntRange(0, 127).Draw(t, "flip-dts")
 	c.Raw = genBytes(t, 6, 6, "raw")
 	return c
 }
@@ -110,6 +112,16 @@ func c04PTS(pts uint64, prior []byte, flip int) *hx.Failure {
 	}
 	if got := pes.ExtractTime(fl); got != pts {
 		return hx.Failf("pts-marker-bits-pes", "pes.ExtractTime depends on prefix/marker bits: %x -> %d, want %d", fl, got, pts)
+	}
+	// the field at the start of a longer slice (a decoder handed the rest of a header): only the 5 bytes count
+	long := append(clone(fl), prior[5:]...)
+	for _, k := range []int{6, 7, 8, 9, 10, 16} {
+		if got := gots.ExtractTime(long[:k]); got != pts {
+			return hx.Failf("pts-long-slice", "gots.ExtractTime on a %d-byte slice starting with %x = %d, want %d", k, fl, got, pts)
+		}
+		if got := pes.ExtractTime(long[:k]); got != pts {
+			return hx.Failf("pts-long-slice-pes", "pes.ExtractTime on a %d-byte slice starting with %x = %d, want %d", k, fl, got, pts)
+		}
 	}
 	return nil
 }
@@ -216,15 +228,25 @@ func c04EndToEnd(c CaseC04) *hx.Failure {
 	// PTS/DTS through a PES header
 	for _, mode := range []int{2, 3} {
 		h := &ref.PES{Prefix: ref.Hex{0, 0, 1}, StreamID: 0xE0, PTSDTS: mode, PTS: c.PTS, DTS: c.DTS, Data: ref.Hex{1, 2, 3}}
-		ph, err := pes.NewPESHeader(h.Bytes())
+		hb := h.Bytes()
+		// prefix code and marker bits of the two time fields are not value bits
+		for i, pos := range c04PTSNonValue {
+			if c.FlipPTS&(1<<uint(i)) != 0 {
+				hb[9+pos[0]] ^= byte(pos[1])
+			}
+			if mode == 3 && c.FlipDTS&(1<<uint(i)) != 0 {
+				hb[14+pos[0]] ^= byte(pos[1])
+			}
+		}
+		ph, err := pes.NewPESHeader(hb)
 		if err != nil {
 			return hx.Failf("e2e-pes", "NewPESHeader failed on a well-formed header: %v", err)
 		}
 		if !ph.HasPTS() || ph.PTS() != c.PTS {
-			return hx.Failf("e2e-pes-pts", "PES PTS = %d (HasPTS=%v), want %d", ph.PTS(), ph.HasPTS(), c.PTS)
+			return hx.Failf("e2e-pes-pts", "PES PTS = %d (HasPTS=%v), want %d (time field bytes %x)", ph.PTS(), ph.HasPTS(), c.PTS, hb[9:14])
 		}
 		if mode == 3 && (!ph.HasDTS() || ph.DTS() != c.DTS) {
-			return hx.Failf("e2e-pes-dts", "PES DTS = %d (HasDTS=%v), want %d", ph.DTS(), ph.HasDTS(), c.DTS)
+			return hx.Failf("e2e-pes-dts", "PES DTS = %d (HasDTS=%v), want %d (time field bytes %x)", ph.DTS(), ph.HasDTS(), c.DTS, hb[14:19])
 		}
 	}
 	// WithPES helper writes the PTS into a packet; the PES decoder must read it back
